@@ -170,8 +170,11 @@ func vhC15Inspect() {
 		vAssert(r4.(bool) == (cnt == n), "all")
 	case "axis":
 		axis := vCfgInt("axis")
-		var rc, ra interface{}
-		pan := vCatch(func() { rc, ra = t.MaskedCount(axis), t.MaskedAny(axis) })
+		var rc, ra, rl, rn interface{}
+		pan := vCatch(func() {
+			rc, ra = t.MaskedCount(axis), t.MaskedAny(axis)
+			rl, rn = t.MaskedAll(axis), t.NonMaskedCount(axis)
+		})
 		vAssert(!pan, "no-panic")
 		if pan {
 			return
@@ -209,6 +212,23 @@ func vhC15Inspect() {
 		for k := range ct {
 			vAssert(cs[k] == ct[k], "axis-count")
 			vAssert(as[k] == (ct[k] > 0), "axis-any")
+		}
+		ld, ok3 := rl.(*Dense)
+		nd, ok4 := rn.(*Dense)
+		vAssert(ok3 && ok4, "axis-all-result-dense")
+		if !ok3 || !ok4 {
+			return
+		}
+		ls := vSnapshot[bool](ld)
+		ns := vSnapshot[int](nd)
+		vAssert(len(ls) == len(ct) && len(ns) == len(ct), "axis-all-result-shape")
+		if len(ls) != len(ct) || len(ns) != len(ct) {
+			return
+		}
+		lane := shape[axis]
+		for k := range ct {
+			vAssert(ls[k] == (ct[k] == lane), "axis-all")
+			vAssert(ns[k] == lane-ct[k], "axis-nonmasked-count")
 		}
 	case "runs":
 		var masked, unmasked []Slice
@@ -400,22 +420,38 @@ func vhC15Move() {
 
 // vhC15Ops: elementwise operations on masked operands deliver, at positions valid in all operands, the unmasked value.
 func vhC15Ops() {
+	dt := vCfgStr("dtype")
+	if dt == "" {
+		dt = "float64"
+	}
+	vDispatch(dt, vBodies{i: vC15Ops[int], i8: vC15Ops[int8], i32: vC15Ops[int32], i64: vC15Ops[int64], u8: vC15Ops[uint8], u16: vC15Ops[uint16],
+		f32: vC15Ops[float32], f64: vC15Ops[float64], c128: vC15Ops[complex128]})
+}
+
+// (the masked-iterator kernels are generated per element type)
+func vC15Ops[T vNum]() {
 	shape := vCfgInts("shape")
 	op := vCfgStr("op")
 	n := vProd(shape)
 	am := vNondetSlice[bool]("ma", n)
 	bm := vNondetSlice[bool]("mb", n)
-	ad := vNondetSlice[float64]("a", n)
-	bd := vNondetSlice[float64]("b", n)
-	ab := make([]float64, n)
+	ad := vNondetSlice[T]("a", n)
+	bd := vNondetSlice[T]("b", n)
+	ab := make([]T, n)
 	copy(ab, ad)
-	bb := make([]float64, n)
+	bb := make([]T, n)
 	copy(bb, bd)
 	amc := make([]bool, n)
 	copy(amc, am)
 	bmc := make([]bool, n)
 	copy(bmc, bm)
 	a := New(WithShape(shape...), WithBacking(ab, amc))
+	if vCfgInt("amasked") == -1 {
+		a = New(WithShape(shape...), WithBacking(ab))
+		for i := range am {
+			am[i] = false
+		}
+	}
 	var b *Dense
 	if vCfgInt("bmasked") == 1 {
 		b = New(WithShape(shape...), WithBacking(bb, bmc))
@@ -427,7 +463,11 @@ func vhC15Ops() {
 	}
 	var res Tensor
 	var err error
-	pan := vCatch(func() { res, err = vCallBin(op, "func", a, b) })
+	var opts []FuncOpt
+	if vCfgStr("mode") == "unsafe" {
+		opts = append(opts, UseUnsafe())
+	}
+	pan := vCatch(func() { res, err = vCallBin(op, "func", a, b, opts...) })
 	vReach("C15.Ops")
 	vAssert(!pan, "no-panic")
 	if pan {
@@ -438,10 +478,10 @@ func vhC15Ops() {
 		return
 	}
 	rd := res.(*Dense)
-	got := vSnapshot[float64](rd)
+	got := vSnapshot[T](rd)
 	for i := 0; i < n; i++ {
 		valid := vAnd(!am[i], !bm[i])
-		var want float64
+		var want T
 		switch op {
 		case "Add":
 			want = ad[i] + bd[i]
